@@ -15,6 +15,10 @@ fn fam_fastsearch(cx: &mut Cx) {
         ("fastsearch@sse42", fs_engine(SearchStrategy::Sse42, true)),
         ("fastsearch@ranksel", fs_engine(SearchStrategy::RankSelect, true)),
         ("fastsearch@simd_nofeatures", fs_engine(SearchStrategy::Simd, false)),
+        ("fastsearch@small_arrays", FastSearchEngine::with_config(FastSearchConfig::for_small_arrays())),
+        ("fastsearch@performance", FastSearchEngine::with_config(FastSearchConfig::performance_optimized())),
+        // adaptive with the rank-select switch out of reach: SSE4.2 up to 35 bytes, SIMD up to 128, linear beyond
+        ("fastsearch@adaptive_noranksel", FastSearchEngine::with_config(FastSearchConfig { rank_select_threshold: usize::MAX, ..Default::default() })),
     ];
     for (name, engine) in engines {
         if !cx.subject(name, "fastsearch", "") {
@@ -23,6 +27,22 @@ fn fam_fastsearch(cx: &mut Cx) {
         let lens = lengths(cx);
             let eng = std::cell::RefCell::new(engine);
         let mut rng = cx.rng.derive(name);
+        // find_first switches from SIMD to linear at 1000 bytes under the rank-select strategy
+        for n in [999usize, 1000, 1001] {
+            let h: Vec<u8> = (0..n).map(|i| 1 + (i % 200) as u8).collect();
+            for (pos, c) in [(n - 1, 0u8), (n / 2, 0xFF), (0, 0xFE)] {
+                let mut hh = h.clone();
+                hh[pos] = c;
+                let pls = cx.pls1();
+                cx.case("find_byte", json!({"h": bytes_json(&hh), "c": c, "api": "find_first"}), json!({"len": n, "c": c}), &pls, 1, true, &mut |a1, _, ps, _, _| {
+                    json!({"r": optu(eng.borrow().find_first(a1.place(ps, &hh), c))})
+                });
+            }
+            let pls = cx.pls1();
+            cx.case("find_byte", json!({"h": bytes_json(&h), "c": 0, "api": "find_first"}), json!({"len": n, "c": 0}), &pls, 1, true, &mut |a1, _, ps, _, _| {
+                json!({"r": optu(eng.borrow().find_first(a1.place(ps, &h), 0))})
+            });
+        }
         for &n in lens.iter() {
             // first occurrence: the needle planted at every position
             for (class, c) in [("zeros", 0x80u8), ("high", 0x7F), ("random", 0)] {
